@@ -129,7 +129,9 @@ NoDupTargets == \A i, j \in 1..Len(items) : (i # j /\ items[i][1] = "t" /\ items
 (* heading takes that heading's title), 0 = none ("#name" is shown)                          *)
 TitleOf(r) == IF r[1] = "slug" THEN r[2]
               ELSE IF r[1] = "explicit" /\ items[r[2]][3] = "next" /\ r[2] < Len(items) /\ items[r[2] + 1][1] = "h"
-                   THEN r[2] + 1 ELSE 0      \* a title nested deeper inside what follows is not the target's title
+                   THEN r[2] + 1
+              ELSE IF r[1] = "explicit" /\ items[r[2]][3] = "dirname" THEN r[2]      \* a named directive: its own title
+              ELSE 0      \* a title nested deeper inside what follows is not the target's title
 ResolveRule == \A l \in 1..Len(res) :
   LET n == LinkSeq[l][1] IN
   IF TargetIdx(n) # {} THEN res[l][1] = "explicit" /\ res[l][2] \in TargetIdx(n)
